@@ -61,6 +61,9 @@ const char confuse_author[] = "Martin Hedenfalk <martin@bzero.se>";
 
 char *cfg_yylval = NULL;
 
+/* Scans in progress: a callback may release a context while a text is being read */
+static int cfg_scan_depth = 0;
+
 extern int  cfg_yylex(cfg_t *cfg);
 extern void cfg_yylex_destroy(void);
 extern int  cfg_lexer_include(cfg_t *cfg, const char *fname);
@@ -799,6 +802,7 @@ static int cfg_init_defaults(cfg_t *cfg)
 					if (strlen(buf) > 0)
 						ret = STATE_ERROR;
 				} else {
+					cfg_scan_depth++;
 					cfg_scan_fp_begin(fp);
 
 					errno = 0;
@@ -808,6 +812,7 @@ static int cfg_init_defaults(cfg_t *cfg)
 					} while (ret == STATE_CONTINUE);
 
 					cfg_scan_fp_end();
+					cfg_scan_depth--;
 					fclose(fp);
 				}
 
@@ -1811,10 +1816,12 @@ DLLIMPORT int cfg_parse_fp(cfg_t *cfg, FILE *fp)
 		return CFG_PARSE_ERROR;
 
 	cfg->line = 1;
+	cfg_scan_depth++;
 	cfg_scan_fp_begin(fp);
 	ret = cfg_parse_internal(cfg, 0, -1, NULL);
 	cfg_lexer_include_unwind();
 	cfg_scan_fp_end();
+	cfg_scan_depth--;
 	if (ret == STATE_ERROR)
 		return CFG_PARSE_ERROR;
 
@@ -2166,7 +2173,7 @@ DLLIMPORT int cfg_free(cfg_t *cfg)
 	 */
 	isroot = cfg->name && !strcmp(cfg->name, "root");
 	cfg_free_context(cfg);
-	if (isroot)
+	if (isroot && cfg_scan_depth == 0)
 		cfg_yylex_destroy();
 
 	return CFG_SUCCESS;
